@@ -14,7 +14,7 @@ def scenarios(tier, seed):
     hs = [1, 2, 3, 4, 5, 6, 9, 127, 128, 253, 254, 255, 256, 257, 300, 512, 1000]
     out = []
     for h in hs:
-        for dn in (-2, -1, 0, 1):
+        for dn in (-2, -1, 0, 1, 2, 3):   # up to and beyond the spare levels
             for dh in (0, 1, 2, 3):
                 n = (h + dn) if dh != 3 else max(1, (h + dn) // 2)
                 if n < 1 or n > 320:
@@ -25,8 +25,8 @@ def scenarios(tier, seed):
     out = list(uniq.values())
     if tier == "quick":
         r.shuffle(out)
-        keep = [x for x in out if x["h"] in (254, 255, 256, 512) and x["dh"] == 0][:10]
-        out = keep + [x for x in out if x not in keep][:110]
+        keep = [x for x in out if x["h"] in (253, 254, 255, 256)]       # the edge of the 8-bit stack pointer, completely
+        out = keep + [x for x in out if x not in keep][:70]
     for k, x in enumerate(out):
         x["rid"] = k
     return out
